@@ -25,12 +25,10 @@ import (
 	"os"
 	"path/filepath"
 	"regexp"
-	"runtime"
 	"sort"
 	"strings"
 	"sync"
 	"sync/atomic"
-	"syscall"
 	"time"
 
 	"verifharness/core"
@@ -63,7 +61,10 @@ type ctx struct {
 	soloRuns       int64
 	reported       map[string]bool
 	nontrivSeq     int64
-	deadline       time.Time
+	budgetSec      float64   // dispatch budget on a machine of nominal speed
+	stretch        float64   // measured: nominal throughput / observed throughput of the batch children (1..12)
+	firstDispatch  time.Time // the budget runs from the first dispatch
+	rates          []float64 // evaluations per second of the finished enum batches
 	queue          map[string][]batchIn
 	dispatched     map[string]int
 	qcond          *sync.Cond
@@ -73,6 +74,42 @@ type ctx struct {
 	submitted      int64
 	sampled        map[string]int
 	fastTmp        string
+}
+
+// nominal throughput of one single-threaded batch child (evaluations per second) on a machine that is
+// not overloaded; measured: 3 100 evaluations per CPU-second with profiling on under load average 80
+const nominalRate = 2500.0
+
+// expired: the dispatch budget is used up.  The budget is stretched by how much slower than nominal the
+// batch children of THIS run are, so an overloaded machine does the same work in more wall-clock time.
+func (c *ctx) expired() bool {
+	c.mu.Lock()
+	defer c.mu.Unlock()
+	if c.firstDispatch.IsZero() {
+		c.firstDispatch = time.Now()
+		return false
+	}
+	return time.Since(c.firstDispatch).Seconds() > c.budgetSec*c.stretch
+}
+
+func (c *ctx) observeRate(evals int64, wall float64) {
+	if wall <= 0 || evals < 500 {
+		return
+	}
+	c.mu.Lock()
+	defer c.mu.Unlock()
+	c.rates = append(c.rates, float64(evals)/wall)
+	rs := append([]float64(nil), c.rates...)
+	sort.Float64s(rs)
+	med := rs[len(rs)/2]
+	st := nominalRate / med
+	if st < 1 {
+		st = 1
+	}
+	if st > 12 {
+		st = 12
+	}
+	c.stretch = st
 }
 
 // submit queues a batch for the pool of child processes
@@ -126,7 +163,7 @@ func (c *ctx) pool(n int) {
 				if !ok {
 					return
 				}
-				if time.Now().After(c.deadline) {
+				if c.expired() {
 					c.mu.Lock()
 					c.skippedBatches[in.Family]++
 					c.mu.Unlock()
@@ -329,6 +366,9 @@ func (c *ctx) runBatchChild(in batchIn) {
 
 func (c *ctx) absorb(in batchIn, out *batchOut) {
 	r := c.r
+	if in.Family == "enum" {
+		c.observeRate(out.Evals, out.WallSec)
+	}
 	c.mu.Lock()
 	c.evals += out.Evals
 	c.cases += out.Cases
@@ -508,7 +548,8 @@ func (c *ctx) enumFamily(wg *sync.WaitGroup, hdr *enumHeader, stems []stem) {
 	for _, st := range stems {
 		cur = append(cur, st)
 		curN += count(st)
-		if curN >= per {
+		// the first two batches are small: their throughput calibrates the budget early
+		if curN >= per || bi < 2 && curN >= 1500 {
 			flush()
 		}
 	}
@@ -774,7 +815,7 @@ func (c *ctx) nestFamily(wg *sync.WaitGroup) []nestKind {
 			wg.Add(1)
 			go func() {
 				defer wg.Done()
-				if time.Now().After(c.deadline) {
+				if c.expired() {
 					atomic.AddInt64(&c.deepSkipped, 1)
 					return
 				}
@@ -801,39 +842,6 @@ func (c *ctx) nestFamily(wg *sync.WaitGroup) []nestKind {
 	return hdr.Kinds
 }
 
-// loadFactor: how much wall-clock time a thread that only computes needs per second of CPU time it gets
-func loadFactor() float64 {
-	worst := 1.0
-	for k := 0; k < 3; k++ {
-		runtime.LockOSThread()
-		var t0, t1 syscall.Rusage
-		syscall.Getrusage(1 /* RUSAGE_THREAD */, &t0)
-		w0 := time.Now()
-		x := uint64(1)
-		for {
-			for i := 0; i < 2000000; i++ {
-				x = x*6364136223846793005 + 1442695040888963407
-			}
-			syscall.Getrusage(1, &t1)
-			cpu := float64(t1.Utime.Sec-t0.Utime.Sec) + float64(t1.Utime.Usec-t0.Utime.Usec)/1e6
-			if cpu >= 0.12 || time.Since(w0) > 3*time.Second {
-				if cpu > 0.01 {
-					if f := time.Since(w0).Seconds() / cpu; f > worst {
-						worst = f
-					}
-				}
-				break
-			}
-		}
-		runtime.UnlockOSThread()
-		_ = x
-	}
-	if worst > 12 {
-		worst = 12
-	}
-	return worst
-}
-
 // ---------------------------------------------------------------------------
 
 func Run(r *core.Run) {
@@ -846,30 +854,10 @@ func Run(r *core.Run) {
 		c.fastTmp = d
 		defer os.RemoveAll(d)
 	}
-	// The dispatch budget is 85 s (thorough 18 min) on a machine that gives a busy thread a whole core.
-	// On an oversubscribed machine the same amount of work is wanted, so the budget is stretched by the
-	// measured share: wall-clock time a pure CPU loop needs per second of its own CPU time (1..12).
-	load := loadFactor()
-	budget := int(float64(r.Pick(85, 18*60)) * load)
+	c.budgetSec, c.stretch = float64(r.Pick(80, 17*60)), 1
 	if b := os.Getenv("C16_BUDGET_SEC"); b != "" {
-		fmt.Sscan(b, &budget)
+		fmt.Sscan(b, &c.budgetSec)
 	}
-	r.Set("machine_load_factor", load)
-	r.Set("dispatch_budget_sec", budget)
-	r.Logf("load factor %.1f, dispatch budget %d s", load, budget)
-	c.deadline = time.Now().Add(time.Duration(budget) * time.Second)
-	// the bulk of this check is exploration (enumerated and scripted inputs, no coverage feedback); only the
-	// fault model of part (i) is model checking proper.  The weaker level is claimed for the whole.
-	r.Level = "exploration"
-	if r.Replay != "" {
-		replay(c)
-		return
-	}
-	r.Set("rule", "inputs: (a) every string of <= 3 (thorough 4) tokens of ten alphabets (spec/TokensAlphabet.tla) in the frames/separators of the plan, enumerated by TLC (Tokens.tla; the last `tail` levels of the product are expanded by the harness and cross-checked); (b) TLC-simulated mutation scripts (TokensMut.tla, depth <= 6) applied to the inputs of the repository's own parser/printer/lexer/bundler tests; (c) nesting kinds x depths x closing modes (TokensNest.tla); (d) fault placements of ScanFaults.tla replayed into real builds. One evaluation = one (input, loader, flag set) through api.Transform / api.Build in a child process. A case is non-trivial iff esbuild REJECTS the input (>= 1 error diagnostic) for at least one loader under the plain flag sets, i.e. error reporting/recovery ran (the sandbox has no reference parser for TS/JSX/CSS; the rule of DESIGN.md A.6 is applied with esbuild's own verdict); distinct = distinct (plan entry, frame, separator, token tuple) / (script, seed) / (kind, depth, mode) / fault placement")
-	r.Assume("time bound: 'terminates within seconds for inputs of tens of kilobytes' is read generously as: one (input <= 40000 bytes, loader, flag set) uses <= 30 s of CPU time in a single-threaded process of its own (GOMAXPROCS=1, CPU time read by the parent from /proc: on an idle machine such a process needs about as much CPU time as wall-clock time, and under load CPU time is inflated far less than wall-clock time); a deadlock is 'no CPU progress for 90 s'")
-	r.Assume("inputs inside a batch child are only screened (diagnostic texts, a 20 s wall-clock monitor, the journal of inputs in progress); every verdict about time or a crash comes from re-running the single (input, loader, flag set) alone in a fresh process")
-	r.Assume("no coverage feedback: enumeration and scripted mutation only (DESIGN.md section 6)")
-
 	c.pool(r.Pick(6, 8))
 	var wg sync.WaitGroup
 	wg.Add(1)
@@ -906,6 +894,9 @@ func Run(r *core.Run) {
 	c.qcond.L.Unlock()
 	c.qcond.Broadcast()
 
+	r.Set("dispatch_budget_sec_nominal", c.budgetSec)
+	r.Set("dispatch_budget_stretch_measured", c.stretch)
+	r.Logf("budget %.0f s x stretch %.1f", c.budgetSec, c.stretch)
 	r.Set("batches_skipped_when_the_time_budget_ran_out", c.skippedBatches)
 	r.Set("deep_solo_runs_skipped_when_the_time_budget_ran_out", c.deepSkipped)
 	r.Set("cases", c.cases)
